@@ -74,3 +74,106 @@ int ctl_clamped(ctl_rd_t *rd, size_t want)
 	memset(rd->buffer, 0, n);
 	return 0;
 }
+
+/* ---- growing buffer (growth prover) and dangling pointers (K8-dangling) ---- */
+struct ctl_ent { unsigned int a, b, size; };
+struct ctl_idx { unsigned int hdr[4]; unsigned char extra[]; };
+
+/* correct: doubling until the new entry fits behind what is already stored */
+struct ctl_idx *ctl_grow_good(sqfs_file_t *f, unsigned int count)
+{
+	size_t max = 128, used = 0, n;
+	struct ctl_idx *out = calloc(1, sizeof(*out) + max), *nw;
+	struct ctl_ent ent;
+
+	if (out == NULL)
+		return NULL;
+	for (unsigned int i = 0; i < count; ++i) {
+		if (f->read_at(f, 0, &ent, sizeof(ent)))
+			goto fail;
+		n = max;
+		while (sizeof(ent) + ent.size + 1 > n - used)
+			n *= 2;
+		if (n > max) {
+			nw = realloc(out, sizeof(*out) + n);
+			if (nw == NULL)
+				goto fail;
+			out = nw;
+			max = n;
+		}
+		memcpy(out->extra + used, &ent, sizeof(ent));
+		used += sizeof(ent);
+		if (f->read_at(f, 0, out->extra + used, ent.size + 1))
+			goto fail;
+		used += ent.size + 1;
+	}
+	return out;
+fail:
+	free(out);
+	return NULL;
+}
+
+/* wrong: grows until the entry alone fits, ignoring what is already stored */
+struct ctl_idx *ctl_grow_bad(sqfs_file_t *f, unsigned int count)
+{
+	size_t max = 128, used = 0, n, need;
+	struct ctl_idx *out = calloc(1, sizeof(*out) + max), *nw;
+	struct ctl_ent ent;
+
+	if (out == NULL)
+		return NULL;
+	for (unsigned int i = 0; i < count; ++i) {
+		if (f->read_at(f, 0, &ent, sizeof(ent)))
+			goto fail;
+		need = sizeof(ent) + ent.size + 1;
+		if (need > max - used) {
+			n = max;
+			do {
+				n *= 2;
+			} while (n < need);
+			nw = realloc(out, sizeof(*out) + n);
+			if (nw == NULL)
+				goto fail;
+			out = nw;
+			max = n;
+		}
+		memcpy(out->extra + used, &ent, sizeof(ent));
+		used += sizeof(ent);
+		if (f->read_at(f, 0, out->extra + used, ent.size + 1))
+			goto fail;
+		used += ent.size + 1;
+	}
+	return out;
+fail:
+	free(out);
+	return NULL;
+}
+
+int ctl_dangling(sqfs_file_t *f, void **result)
+{
+	unsigned int x;
+
+	*result = calloc(1, 64);
+	if (*result == NULL)
+		return -1;
+	if (f->read_at(f, 0, &x, sizeof(x))) {
+		free(*result);
+		return -1;          /* *result still points at the freed block */
+	}
+	return 0;
+}
+
+int ctl_not_dangling(sqfs_file_t *f, void **result)
+{
+	unsigned int x;
+
+	*result = calloc(1, 64);
+	if (*result == NULL)
+		return -1;
+	if (f->read_at(f, 0, &x, sizeof(x))) {
+		free(*result);
+		*result = NULL;
+		return -1;
+	}
+	return 0;
+}
